@@ -477,6 +477,26 @@ class CFG(object):
             cur = prev[cur]
         return path[::-1]
 
+    def loop_nodes(self, head):
+        """Natural loop of `head`: head plus every node that reaches a back-edge source without passing through head."""
+        cache = self.__dict__.setdefault("_loopnodes", {})
+        if head in cache:
+            return cache[head]
+        body = {head}
+        work = [p for p in self.g.predecessors(head) if self.g[p][head]["kind"] in ("back", "continue")]
+        while work:
+            n = work.pop()
+            if n in body:
+                continue
+            body.add(n)
+            for p in self.g.predecessors(n):
+                if self.g[p][n]["kind"] == "exc":
+                    continue
+                if p not in body:
+                    work.append(p)
+        cache[head] = body
+        return body
+
     def cycle_through(self, n, avoid=()):
         """A path n -> ... -> n (length >= 1) avoiding `avoid`, or None."""
         for m in self.g.successors(n):
